@@ -103,3 +103,25 @@ Definition bijectionb (pairs : list (list Z * list Z)) (dirs : list (list Z)) : 
         numerators 2*X so that the half-open cube [-1/2, 1/2) is  -D <= 2X < D) is its own
         half-cell image ------------------------------------------------------------------------- *)
 Definition in_half_cellb (D : Z) (X2 : list Z) : bool := forallb (fun x => (- D <=? x) && (x <? D)) X2.
+
+(* ---- C30: a transformation file ------------------------------------------------------------- *)
+(* start index of every species block in a POSCAR whose blocks have the lengths of the given lists *)
+Fixpoint shifts (acc : Z) (ch : list (list Z)) : list Z :=
+  match ch with [] => [] | cl :: t => acc :: shifts (acc + zlen cl) t end.
+(* map2string: the per-species mapping flattened with the block offsets added *)
+Definition flatten_mapping (mapping : list (list Z)) : list Z :=
+  concat (map (fun p => map (Z.add (fst p)) (snd p)) (combine (shifts 0 mapping) mapping)).
+(* species of every atom line of a POSCAR written from the ordering ch *)
+Definition line_species (ch : list (list Z)) : list Z :=
+  concat (map (fun p => repeat (fst p) (length (snd p))) (enumerate ch)).
+Definition site_image (idx : list Z) (i : Z) : Z := nth (Z.to_nat i) idx 0.
+(* trans.pl: output line k is g applied to input line flat[k], the header (species counts) is copied.
+   The state's POSCAR lists the sites concat (chemorder A), the endpoint's lists concat (chemorder B). *)
+Definition transfileb (idx flat : list Z) (A B : sc) : bool :=
+  zlist_eqb (map zlen (chemorder A)) (map zlen (chemorder B)) &&
+  forallb (fun f => (0 <=? f) && (f <? zlen (concat (chemorder A)))) flat &&
+  zlist_eqb (map (fun f => nth (Z.to_nat f) (line_species (chemorder A)) (-1)) flat) (line_species (chemorder B)) &&
+  zlist_eqb (concat (chemorder B)) (map (fun f => site_image idx (nth (Z.to_nat f) (concat (chemorder A)) 0)) flat).
+
+(* every Makefile prerequisite is a member of the archive or a file the relaxation produces *)
+Definition depsb (deps files : list (list Z)) : bool := forallb (fun d => str_mem d files) deps.
